@@ -146,3 +146,37 @@ def lemma_raw_accuracies_ignore_estimated_voicing(rv: Arr(Real, None), rc: Arr(R
     requires(voicing_ok(rv, ev1), voicing_ok(rv, ev2), length(rc) == n, length(ec) == n)
     ensures(raw_pitch_accuracy(rv, rc, ev1, ec, tol) == raw_pitch_accuracy(rv, rc, ev2, ec, tol),
             raw_chroma_accuracy(rv, rc, ev1, ec, tol) == raw_chroma_accuracy(rv, rc, ev2, ec, tol), label='voicing-free')
+
+
+log2 = uninterpreted('log2', ['Real'], 'Real')
+
+
+@contract("mir_eval.melody.freq_to_voicing", props="C09 C04 C14")
+def freq_to_voicing(frequencies: Arr(Real, None), voicing: Opt(Arr(Real, None)) = None) -> Tup(Arr(Real, None), Arr(Real, None)):
+    """magnitudes from |f|; voicing from the sign of f, or the given voicing with zero-frequency frames unvoiced"""
+    n = length(frequencies)
+    requires(is_none(voicing) or length(val(voicing)) == n)
+    mag = result[0]
+    vo = result[1]
+    ensures(length(mag) == n, forall(0, n, lambda i: mag[i] == absr(frequencies[i])), label='magnitude', props="C09 C04")
+    ensures(length(vo) == n, forall(0, n, lambda i: vo[i] == ite(frequencies[i] == 0, 0.0, ite(is_none(voicing), ite(frequencies[i] > 0, 1.0, 0.0), val(voicing)[i]))),
+            label='voicing', props="C04")
+
+
+@contract("mir_eval.melody.hz2cents", props="C09 C04")
+def hz2cents(freq_hz: Arr(Real, None), base_frequency: Real = 10.0) -> Arr(Real, None):
+    requires(base_frequency > 0)
+    n = length(freq_hz)
+    ensures(length(result) == n, forall(0, n, lambda i: result[i] == ite(freq_hz[i] == 0, 0.0, 1200.0 * log2(absr(freq_hz[i]) * (1.0 / base_frequency)))),
+            label='cents', props="C04 C09")
+
+
+@lemma("C09")
+def lemma_sign_flip_keeps_magnitude(f: Arr(Real, None), g: Arr(Real, None)):
+    """negating frequencies (marking them unvoiced) changes neither the magnitudes nor, hence, the cent values"""
+    requires(length(g) == length(f), forall(0, length(f), lambda i: g[i] == -f[i]))
+    a = freq_to_voicing(f)
+    b = freq_to_voicing(g)
+    c1 = hz2cents(f)
+    c2 = hz2cents(g)
+    ensures(forall(0, length(f), lambda i: a[0][i] == b[0][i] and c1[i] == c2[i]), label='magnitudes-equal')
